@@ -659,3 +659,161 @@ def hidden_state_ob(prog, group):
               "methods / array-valued functions, "
               "stores into module-level containers (instance caches are covered by the write rule of the API-table obligations)",
               "gaussian_toolbox/*", group=group)
+
+
+# ---------------------------------------------------------------- index lists: a contiguity test on the end points does not make a list sorted
+EP_SYNTH = '''
+def bad_endpoints(self, dims):
+    if dims[-1] - dims[0] == len(dims) - 1:
+        lo, hi = int(dims[0]), int(dims[-1]) + 1
+        return self.mu[:, lo:hi]
+    return self.mu[:, dims]
+def bad_minmax(self, indices):
+    indices = jnp.asarray(indices)
+    static = not isinstance(indices, jax.core.Tracer)
+    if static and indices.size > 0:
+        lo, hi = int(jnp.min(indices)), int(jnp.max(indices))
+        if hi - lo + 1 == indices.size:
+            return self.nu[lo:hi + 1]
+    return jnp.take(self.nu, indices, axis=0)
+def good_single(self, dims):
+    if len(dims) == 1:
+        return self.mu[:, dims[0]:dims[0] + 1]
+    return self.mu[:, dims]
+def good_sorted(self, dims):
+    if dims[-1] - dims[0] == len(dims) - 1 and bool(jnp.all(jnp.diff(dims) == 1)):
+        return self.mu[:, int(dims[0]):int(dims[-1]) + 1]
+    return self.mu[:, dims]
+def good_plain(self, dims, n):
+    if n > 2:
+        return self.mu[:, :n]
+    return self.mu[:, dims]
+'''
+
+
+def _endpoint_sites(fn, where):
+    """An `if` whose test looks at an index-list argument only through its first / last element, min / max and length, and whose body
+    replaces the gather by a basic slice with bounds taken from those: first, last, min, max and length are the same for [0,1,2,3] and
+    [0,2,1,3] (and for [2,2,4] and [2,3,4]), so for lists of three or more entries the slice is not the requested selection."""
+    import ast
+    out = []
+    parents = {}
+    for n in ast.walk(fn):
+        for c in ast.iter_child_nodes(n):
+            parents[c] = n
+    params = [a.arg for a in fn.args.posonlyargs + fn.args.args + fn.args.kwonlyargs if a.arg not in ("self", "cls")]
+    for P in params:
+        aliases, summ, elem = {P}, set(), set()
+
+        def form(nm):
+            """how is this occurrence of a whole-list name used?  'elem' (first/last/min/max), 'len', 'neutral' (isinstance) or None (anything else)"""
+            p = parents.get(nm)
+            if isinstance(p, ast.Subscript) and p.value is nm:
+                ix = p.slice
+                if isinstance(ix, ast.UnaryOp) and isinstance(ix.op, ast.USub):
+                    ix = ix.operand
+                if isinstance(ix, ast.Constant) and isinstance(ix.value, int):
+                    return "elem"
+                return None
+            if isinstance(p, ast.Attribute) and p.value is nm:
+                if p.attr in ("size", "shape"):
+                    return "len"
+                pp = parents.get(p)
+                if p.attr in ("min", "max") and isinstance(pp, ast.Call) and pp.func is p and not pp.args:
+                    return "elem"
+                return None
+            if isinstance(p, ast.Call) and nm in p.args:
+                f = ast.unparse(p.func).split(".")[-1]
+                if f in ("min", "max", "amin", "amax") and len(p.args) == 1:
+                    return "elem"
+                if f == "len":
+                    return "len"
+                if f == "isinstance":
+                    return "neutral"
+            return None
+
+        def kind(e):
+            """'whole' | 'summary' (depends on the list only through end points / extremes / length) | 'other' | 'none' (does not depend on it)"""
+            if isinstance(e, ast.Name) and e.id in aliases:
+                return "whole", False
+            if isinstance(e, ast.Call) and ast.unparse(e.func).split(".")[-1] in ("asarray", "array", "astype", "int32", "int64") \
+                    and len(e.args) >= 1 and isinstance(e.args[0], ast.Name) and e.args[0].id in aliases:
+                return "whole", False
+            dep, el = False, False
+            for nm in ast.walk(e):
+                if isinstance(nm, ast.Name) and isinstance(nm.ctx, ast.Load):
+                    if nm.id in aliases:
+                        f = form(nm)
+                        if f is None:
+                            return "other", False
+                        dep = True
+                        el = el or f == "elem"
+                    elif nm.id in summ:
+                        dep = True
+                        el = el or nm.id in elem
+            return ("summary" if dep else "none"), el
+        stmts = sorted((n for n in ast.walk(fn) if isinstance(n, ast.Assign) and len(n.targets) == 1), key=lambda n: (n.lineno, n.col_offset))
+        for n in stmts:
+            t, v = n.targets[0], n.value
+            pairs = list(zip(t.elts, v.elts)) if isinstance(t, ast.Tuple) and isinstance(v, ast.Tuple) and len(t.elts) == len(v.elts) else [(t, v)]
+            for tt, vv in pairs:
+                if isinstance(tt, ast.Name):
+                    k, el = kind(vv)
+                    if k == "whole":
+                        aliases.add(tt.id)
+                    elif k == "summary":
+                        summ.add(tt.id)
+                        if el:
+                            elem.add(tt.id)
+        for n in ast.walk(fn):
+            if not isinstance(n, ast.If):
+                continue
+            k, el = kind(n.test)
+            if k != "summary" or not el:
+                continue
+            # a test that pins the length to one or two entries makes the end points the whole list
+            small = False
+            for c in ast.walk(n.test):
+                if isinstance(c, ast.Compare) and len(c.ops) == 1 and isinstance(c.ops[0], (ast.Eq, ast.LtE, ast.Lt)):
+                    sides = [c.left, c.comparators[0]]
+                    if any(isinstance(x, ast.Constant) and x.value in (1, 2, 3) for x in sides) and any(kind(x) == ("summary", False) for x in sides):
+                        small = True
+            if small:
+                continue
+            for st in n.body:
+                for sub in ast.walk(st):
+                    if isinstance(sub, ast.Subscript):
+                        for sl in ast.walk(sub.slice):
+                            if isinstance(sl, ast.Slice):
+                                bounds = [b for b in (sl.lower, sl.upper) if b is not None]
+                                if any(kind(b) == ("summary", True) for b in bounds):
+                                    out.append(f"{where}:{sub.lineno}: `{ast.unparse(sub)[:60]}` replaces the selection by the index list `{P}` with a basic slice under the "
+                                               f"test `{ast.unparse(n.test)[:80]}`, which sees `{P}` only through its first / last / smallest / largest entry and its "
+                                               "length - an unsorted or repeating list with the same end points passes the test and gets the wrong components")
+    return sorted(set(out))
+
+
+def endpoint_contiguity_ob(prog, group):
+    import ast
+    from ..core import Ob, Refuted
+    from ..nf import Undecided
+
+    def run():
+        t = ast.parse(EP_SYNTH)
+        got = {f.name: _endpoint_sites(f, "synthetic") for f in t.body}
+        if not all(got[k] for k in ("bad_endpoints", "bad_minmax")) or any(got[k] for k in ("good_single", "good_sorted", "good_plain")):
+            raise Undecided(f"index-list rule: synthetic examples misclassified { {k: len(v) for k, v in got.items()} }")
+        bad, nfun = [], 0
+        for mod, tree in prog.modules.items():
+            for fn in ast.walk(tree):
+                if isinstance(fn, ast.FunctionDef):
+                    nfun += 1
+                    bad += _endpoint_sites(fn, f"{prog.relpath(mod)}::{prog.qualname_at(mod, fn.lineno)}")
+        if nfun < 100:
+            raise Undecided(f"only {nfun} functions scanned")
+        if bad:
+            raise Refuted(bad[0], bad[0].split(":")[0] + "::" + bad[0].split("::")[1].split(":")[0], bad)
+        return [], dict(functions=nfun)
+    return Ob("indexlist/endpoint-contiguity", run,
+              "no gather by an index-list argument is replaced by a basic slice under a test that sees the list only through its end points, extremes and length "
+              "(index lists may come in any order and, for slice(), with repeats)", "gaussian_toolbox/*", group=group)
